@@ -54,6 +54,7 @@ marker = { &b }
 optempty = { a ~ marker? ~ b? ~ (marker | "c")? }
 silent_lit = _{ "a" ~ ("b" | NEWLINE)+ ~ ANY? }
 oob = { a? ~ "c" ~ (PEEK[-1..] | PEEK[0..2]) ~ ANY* }
+until2 = @{ (!("b" | "a" | "*/") ~ ANY)* ~ ("a" | "b")? }
 optpush_atomic = @{ PUSH(a) ~ (PUSH(b) ~ "c")? ~ b ~ PEEK? }
 optpush = { PUSH(a) ~ (PUSH(b) ~ "c")? ~ b ~ PEEK? ~ (PUSH(a) ~ a)* ~ POP? }
 "# } }
@@ -105,6 +106,7 @@ marker = { &b }
 optempty = { a ~ marker? ~ b? ~ (marker | "c")? }
 silent_lit = _{ "a" ~ ("b" | NEWLINE)+ ~ ANY? }
 oob = { a? ~ "c" ~ (PEEK[-1..] | PEEK[0..2]) ~ ANY* }
+until2 = @{ (!("b" | "a" | "*/") ~ ANY)* ~ ("a" | "b")? }
 optpush_atomic = @{ PUSH(a) ~ (PUSH(b) ~ "c")? ~ b ~ PEEK? }
 optpush = { PUSH(a) ~ (PUSH(b) ~ "c")? ~ b ~ PEEK? ~ (PUSH(a) ~ a)* ~ POP? }
 "#]
@@ -158,6 +160,7 @@ marker = { &b }
 optempty = { a ~ marker? ~ b? ~ (marker | "c")? }
 silent_lit = _{ "a" ~ ("b" | NEWLINE)+ ~ ANY? }
 oob = { a? ~ "c" ~ (PEEK[-1..] | PEEK[0..2]) ~ ANY* }
+until2 = @{ (!("b" | "a" | "*/") ~ ANY)* ~ ("a" | "b")? }
 optpush_atomic = @{ PUSH(a) ~ (PUSH(b) ~ "c")? ~ b ~ PEEK? }
 optpush = { PUSH(a) ~ (PUSH(b) ~ "c")? ~ b ~ PEEK? ~ (PUSH(a) ~ a)* ~ POP? }
 "#]
@@ -175,7 +178,7 @@ fn from_thin(t: &ThinToken<t::Rule>) -> Tree {
 }
 /// the documented difference: descendants of atomic / compound-atomic tokens are not exposed
 fn prune(t: &Tree) -> Tree {
-    let atomic = ["seq_atomic", "seq_compound", "nest", "nest2", "untilc", "atomic_via_silent", "compound_via_silent", "deep", "optpush_atomic"].contains(&t.rule.as_str());
+    let atomic = ["seq_atomic", "seq_compound", "nest", "nest2", "untilc", "atomic_via_silent", "compound_via_silent", "deep", "optpush_atomic", "until2"].contains(&t.rule.as_str());
     Tree { rule: t.rule.clone(), start: t.start, end: t.end, children: if atomic { vec![] } else { t.children.iter().map(prune).collect() } }
 }
 fn shift(t: &Tree, d: usize) -> Tree { Tree { rule: t.rule.clone(), start: t.start + d, end: t.end + d, children: t.children.iter().map(|c| shift(c, d)).collect() } }
@@ -191,7 +194,7 @@ fn skip_trailing(s: &str, mut p: usize) -> usize {
 fn rule_matches_at(name: &str, s: &str, loc: usize) -> Option<bool> {
     let pos = Position::new(s, loc)?;
     macro_rules! d { ($($r:ident),*) => { match name { $( stringify!($r) => Some(t::pairs::$r::try_check_partial(pos).is_ok()), )* "EOI" => Some(loc == s.len()), _ => None } } }
-    d!(builtin, stk2, pushskip, deep, deep_n, deep_na, a, b, seq, seq_atomic, seq_compound, seq_nonatomic, nest, nest2, rep, rep_n, choice, opt, pred, usesilent, stack, insens, nl, soi, anyrule, atomic_via_silent, compound_via_silent, insens2, untilc, polar, notsoi, eoipred, polar2, tree3, tree4, marker, optempty, optpush_atomic, optpush, oob)
+    d!(builtin, stk2, pushskip, deep, deep_n, deep_na, a, b, seq, seq_atomic, seq_compound, seq_nonatomic, nest, nest2, rep, rep_n, choice, opt, pred, usesilent, stack, insens, nl, soi, anyrule, atomic_via_silent, compound_via_silent, insens2, untilc, polar, notsoi, eoipred, polar2, tree3, tree4, marker, optempty, optpush_atomic, optpush, oob, until2)
 }
 /// C10 truthfulness: every rule listed as expected fails at the location, every rule listed as unexpected matches there
 fn truthful(msg: &str, s: &str, loc: usize) -> Result<(), String> {
@@ -448,6 +451,7 @@ fn all_rules(s: &str, cases: &mut u64) -> Result<(), String> {
     check_rule!(optpush_atomic, true, s, cases);
     check_rule!(optpush, false, s, cases);
     check_rule!(oob, false, s, cases);
+    check_rule!(until2, true, s, cases);
     check_tree!(a, s, cases); check_tree!(seq, s, cases); check_tree!(seq_nonatomic, s, cases); check_tree!(rep, s, cases); check_tree!(rep_n, s, cases);
     check_tree!(choice, s, cases); check_tree!(opt, s, cases); check_tree!(pred, s, cases); check_tree!(usesilent, s, cases); check_tree!(stack, s, cases);
     check_tree!(insens, s, cases); check_tree!(nl, s, cases); check_tree!(soi, s, cases); check_tree!(eoipred, s, cases);
@@ -470,6 +474,7 @@ fn all_sub(s: &str, cases: &mut u64) -> Result<(), String> {
     check_sub!(eoipred, s, cases);
     check_sub!(seq_atomic, s, cases);
     check_sub!(compound_via_silent, s, cases);
+    check_sub!(until2, s, cases);
     check_sub_entry!(rules, silent, s, cases);
     check_sub_entry!(rules, silent_ref, s, cases);
     check_sub_entry!(rules, deep_s, s, cases);
@@ -492,7 +497,7 @@ fn nb_gen_vs_pest() {
             Err(_) => { println!("NB-RESULT name=nb_gen_vs_pest status=fail cases={} key=input={:?} detail=C09: panic", cases, s); return; }
         }
     }
-    println!("NB-RESULT name=nb_gen_vs_pest status=ok cases={} key=- detail=39 rules x all strings<={} chars over 3 alphabets: verdict/offset/tree vs pest, check==parse incl. error text, full parse, error location, traversal helpers", cases, l);
+    println!("NB-RESULT name=nb_gen_vs_pest status=ok cases={} key=- detail=40 rules x all strings<={} chars over 3 alphabets: verdict/offset/tree vs pest, check==parse incl. error text, full parse, error location, traversal helpers", cases, l);
 }
 #[test]
 fn nb_gen_subinput() {
